@@ -27,6 +27,7 @@ end
 set t5 to transform set match to match + '!' set seen to 'S' return match end
 set t6 to transform set x to 'Q' + x set matchNumber to 7 return x end
 set t7 to transform return seen + '|' + x + '|' + matchNumber end
+set t8 to transform return '' + startOffset + '-' + endOffset + '/' + totalMatches + ':' + lineNumber + ',' + columnNumber + '=' + value + '@' + filename end
 set pcap to pattern (any = x)
 set pcap2 to pattern ('a' = x) or (any = y)
 `
@@ -78,6 +79,9 @@ func c05Items() []withItem {
 		{"t5", func(m engine.Match, _ map[string]string, _ int) string { return m.Value + "!" }},
 		{"t6", func(_ engine.Match, v map[string]string, _ int) string { return "Q" + v["x"] }},
 		{"t7", func(m engine.Match, v map[string]string, _ int) string { return "|" + v["x"] + "|" + strconv.Itoa(m.MatchNumber) }},
+		{"t8", func(m engine.Match, _ map[string]string, total int) string {
+			return fmt.Sprintf("%d-%d/%d:%d,%d=%s@%s", m.Offset.Start, m.Offset.End, total, m.Line.Start, m.Column.Start, m.Value, m.Filename)
+		}},
 	}
 }
 
@@ -91,7 +95,7 @@ func init() {
 	register(&Check{
 		ID:    "C05",
 		Level: "exploration",
-		Rule: "every `with` list of length 1..k over 20 items (2 string literals, captures x y, the 8 built-ins, an undefined name, 7 transforms reading and ASSIGNING match / matchNumber / captures / locals) x 12 bodies (two with the captures declared inside `set .. to pattern` definitions) with 0-2 captures whose values differ between matches x every text over {a,b,\\n} up to the length bound; " +
+		Rule: "every `with` list of length 1..k over 21 items (2 string literals, captures x y, the 8 built-ins, an undefined name, 8 transforms reading and ASSIGNING match / matchNumber / captures / locals and reading every built-in) x 12 bodies (two with the captures declared inside `set .. to pattern` definitions) with 0-2 captures whose values differ between matches x every text over {a,b,\\n} up to the length bound; " +
 			"expected replacement = concatenation of the items computed from the match record itself, and the matches must equal those of `find all` with the same body; non-trivial = distinct (list,body,text) triples with at least 2 matches",
 		Assume: []string{"the four transforms are fixed; the general evaluator is C11's subject", "Run(string) reports filename 'text'"},
 		Budget: map[string]int{"quick": 120, "thorough": 1200},
